@@ -84,7 +84,7 @@ NOTES = {
  "C19-instances-counted-from-alive-only": "initially MISSED: the model treated 'instances holding only notification samples do not count' as an admissible convention; an instance with any stored sample now counts under every convention",
  "C25-filter-memory-reset-on-rebirth": "initially MASKED by the open C25 known finding (same signature); the signature now distinguishes vs=last_accepted from vs=older_accepted, the known finding being the latter",
  "C06-nackfrag-scan-unbounded": "initially MISSED (only single hostile datagrams were generated); multi-datagram hostile sequences were added, after which it is caught",
- "C19b-unregistered-instances-not-counted-in-max-samples": "round 4: MISSED by C19 and C28 at the quick tier: the writer-limit workload (scen_rc/wlim.rs) never unregisters an instance that still holds unacknowledged samples before writing again; to be added (open gap, see DESIGN.md section 11)",
+ "C19b-unregistered-instances-not-counted-in-max-samples": "round 4: initially MISSED by C19 and C28: the writer-limit workload (scen_rc/wlim.rs) never unregistered an instance that still held samples before writing again; unregister_instance ops were added to its generator (the model keeps the stored samples in the totals), after which C19 catches it",
  "C21b-insert-index-within-instance-subsequence": "round 4: caught at once",
  "C23b-take-next-instance-stops-at-first-empty": "round 4: caught at once",
  "C13-locator-scan-stops-at-gap": "demonstration needs the cargo feature verif_hooks (see validation.txt)",
